@@ -33,6 +33,10 @@ CHECKS = {
          "Exploration / differential: evaluator and compiled code start from the same lowered IR; whenever the evaluator completes, return value and host-call log must match the compiled code.",
          "About half of the generated programs make the evaluator stop loudly (unsupported features); reported in evidence classes.",
          "DESIGN.md §4 C20"),
+ "C09": ("grammar-generated literal spellings vs an independent decoder; Unicode identifiers from regex-syntax's XID tables; trivia insertion (metamorphic, vs the reference interpreter); operator trees printed with minimal and full parentheses vs the reference interpreter; forbidden chains must be parse errors",
+         "Exploration: four generators cover literals of every documented form, identifiers in every naming position, comments/whitespace/shebang, and operator precedence/associativity; each compares the compiled script's output with an independently computed value.",
+         "Integer spellings within i64; f32 double-rounding spellings discarded; IPv6 text decoded by std.",
+         "DESIGN.md §4 C09"),
  "C10": ("exhaustive operator/type/boundary-operand grid + random operands (proptest) in crash-isolated worker processes; survival oracle",
          "Exploration: every arithmetic/comparison/compound operator on all 10 numeric types over all pairs of a 15-value boundary set (exhaustive) plus random pairs, each executed in a worker process whose death by signal/abort is the failure signal.",
          "Trusts the driver's classification of worker exit status; operands outside the boundary set are only sampled.",
